@@ -761,7 +761,9 @@ func (t *tracer) param(p *ssa.Parameter, ctx []frame, proj []string) *Set {
 			out.AddAll(t.trace(args[ai], nil, proj))
 		}
 	}
-	if out.Len() == 0 {
+	// (an empty result with call sites present is a trace that ran into itself - the value is then accounted for by
+	// the outer visit - not a missing caller)
+	if out.Len() == 0 && len(sites) == 0 {
 		o := &Origin{Kind: APIParam, Desc: fnShort(fn) + "." + p.Name() + " (no caller found)", Fn: fn, Param: idx}
 		out.Add(o)
 	}
